@@ -1,4 +1,4 @@
-from planlib import geo
+from planlib import geo, desc_fuzz
 
 
 def _jobs(tier):
@@ -45,6 +45,7 @@ PLAN = dict(
                  "cplx_to_znx32) are outside the domain",
                  "x87 long double (64-bit significand) for the error-free TwoSum; round-to-nearest mode"],
     quick=_jobs("quick"), thorough=_jobs("thorough"),
+    fuzz=desc_fuzz("C14", fix=dict(k=(0, 10))),
     required_classes=dict(all=["fn:" + f for f in _FN]
                           + [f + ":m<8" for f in _FN]
                           + ["cfg:full", "cfg:generic", "divisor==m", "divisor<1", "int32:min/max", "to_znx64:probe:pred(1/2)", "to_znx64:tie->towards-zero", "to_znx64:tie->away-from-zero"]
